@@ -20,7 +20,7 @@ THEOREMS = ["C17.init_inv", "C17.greedy_step", "C17.step_inv", "C17.spanning", "
             "C17.generated_greedy_step", "C17.generated_prim_minimal", "C17.generated_prim_attains",
             # refinement of the WHOLE __call__ (soma handling, distance matrix with the vector norm as a parameter, loop, table assembly), regenerated on every run
             "RefineMstFront.for1_step'", "RefineMstFront.mst_call_refines", "C17.generated_call_eq_model", "C17.table_rows", "C17.generated_call_spanning",
-            "C17.generated_call_branching_limit", "C17.generated_call_prim_minimal", "C17.generated_call_raises_empty", "C17.generated_call_raises_bad_soma"]
+            "C17.generated_call_branching_limit", "C17.generated_call_prim_minimal", "C17.generated_call_prim_attains", "C17.generated_call_raises_empty", "C17.generated_call_raises_bad_soma"]
 TRUSTED = ["hand-written model Model/Mst.lean of the greedy loop: PROVED equal (RefineMst.mst_loop_refines, every n > 0, every n × n matrix, every option) to "
            "Gen.Algo.mst_loop, the definition the imperative translator regenerates on every run from PointsToCuntzMST.__call__ (pid = np.full … end of the "
            "for loop); trusted there: the translator and Model/Py.lean (float arrays as arrays over a numeric type, run at Rat; 2-d arrays as lists of rows; "
